@@ -211,8 +211,17 @@ def check_tables(ctx, w):
     ctx.ob('G-TAB', f.construct, "letter b'P': u8 encoding + pointer by encoding & 0x0f", ok, got=p[:160])
     ctx.ob('G-TAB', f.construct, 'no other letters', set(got) == set(want) | {b'P'}, got=sorted(got))
     src = U(f.node)
+    # an unknown letter leaves the letter loop (try/except KeyError: break, or a .get() that is tested for None and breaks)
+    letter_loops = [l for l in ast.walk(f.node) if isinstance(l, ast.For) and 'available_fields' in U(l)]
+    stops = False
+    for l in letter_loops:
+        for h in ast.walk(l):
+            if isinstance(h, ast.ExceptHandler) and h.type is not None and 'KeyError' in U(h.type) and any(isinstance(x, ast.Break) for x in h.body):
+                stops = True
+            if isinstance(h, ast.If) and any(isinstance(x, ast.Break) for x in h.body) and 'is None' in U(h.test) and '.get(' in U(l):
+                stops = True
     ctx.ob('G-TAB', f.construct, 'unknown letter stops struct building; raw bytes still taken by length',
-           'except KeyError:' in src and src[src.index('except KeyError:'):src.index('except KeyError:') + 40].split() [2] == 'break' and 'aug_bytes = self._read_augmentation_data(entry_structs)' in src and 'self.stream.seek(offset)' in src)
+           stops and 'aug_bytes = self._read_augmentation_data(entry_structs)' in src and 'self.stream.seek(offset)' in src)
     ctx.ob('G-TAB', f.construct, "data requires the 'z' prefix", "assert augmentation.startswith(b'z')" in src)
     tr = expr.assign_trace(f.node, env)
     ctx.ob('G-TAB', f.construct, 'struct parsed at the position after the header', tr.get('offset') == [('=', 'tell(stream)')] and
